@@ -482,7 +482,9 @@ func (e *vlEnv) installVM(scripts map[string]*vlVM) {
 			} else {
 				payer = new(big.Int).Add(v.Sender.Balance(), toSender)
 			}
-			if payer.Cmp(need) < 0 {
+			// with transfers the scripted VM itself refuses (out of gas, no effects); WITHOUT transfers the run
+			// completes and contract.Execute's own post-execution balance check has to catch it
+			if payer.Cmp(need) < 0 && len(sc.Transfers) > 0 {
 				return "", nil, "", new(big.Int), errors.New("scripted: out of gas")
 			}
 		}
